@@ -47,6 +47,7 @@ PrecOf(n) ==
   IF n \in Inputs THEN {}
   ELSE LET d == Def[n] IN
     CASE d.kind = "Plus"  -> SeqSet(d.refs)
+      [] d.kind = "Lin"   -> SeqSet(d.refs)
       [] d.kind = "Cat"   -> {d.ref}
       [] d.kind = "SumR"  -> {d.rng}
       [] d.kind = "Idx"   -> {d.rng}
@@ -66,7 +67,7 @@ Uniq(seq) ==
 NeededSeq(n) ==
   IF n \in Inputs THEN <<>>
   ELSE LET d == Def[n] IN
-    CASE d.kind = "Plus"  -> Uniq(d.refs)
+    CASE d.kind \in {"Plus", "Lin"} -> Uniq(d.refs)
       [] d.kind = "Range" -> FlatSeq(d.rows)
       [] d.kind = "Cat"   -> <<d.ref>>
       [] OTHER            -> <<d.rng>>
@@ -96,9 +97,23 @@ PlusFold(refs, pv, acc) ==
   IF refs = <<>> THEN acc
   ELSE PlusFold(Tail(refs), pv, Arith("+", acc, pv[Head(refs)]))
 
+\* Lin: (c1*r1 + c2*r2 + ..) / 2^shift + b, on numbers that are integers
+\* scaled by a power of two (EngineIter); b is given already scaled
+RECURSIVE LinFold(_, _, _, _)
+LinFold(refs, coefs, pv, acc) ==
+  IF refs = <<>> THEN acc
+  ELSE LinFold(Tail(refs), Tail(coefs), pv,
+               Arith("+", acc, Arith("*", VN(Head(coefs)), pv[Head(refs)])))
+LinApply(d, pv) ==
+  LET sum == LinFold(d.refs, d.coefs, pv, VN(0))
+  IN  IF sum[1] # "N" THEN sum
+      ELSE IF sum[2] % (2 ^ d.shift) # 0 THEN <<"U">>     \* not exact at this scale
+      ELSE VN(sum[2] \div (2 ^ d.shift) + d.b)
+
 Apply(n, pv) ==
   LET d == Def[n] IN
   CASE d.kind = "Plus"  -> Arith("+", PlusFold(Tail(d.refs), pv, pv[Head(d.refs)]), VN(d.k))
+    [] d.kind = "Lin"   -> LinApply(d, pv)
     [] d.kind = "Cat"   -> Concat(pv[d.ref], VS("x"))
     [] d.kind = "SumR"  -> SumCells(Flat(pv[d.rng]))
     [] d.kind = "Idx"   -> NoBlank(pv[d.rng][2][d.i][d.j])
